@@ -401,10 +401,20 @@ def run_rebuild(case):
                     base = os.path.dirname(sarg[0])
                     sarg[0] = (os.path.join(base, "searchlink") if case["search_spelling"] == "symlink"
                                else os.path.join(base, "dest", "..", os.path.basename(sarg[0])))
+                asm = None
                 for _ in range(runs):
                     if case.get("route") == "cli":
                         from torrentfile.cli import execute
                         rec["count"] = execute(["rebuild", "-m"] + marg + ["-c"] + sarg + ["-d", dest_arg])
+                    elif case.get("reuse_obj") and asm is not None:
+                        # ONE Assembler object asked again after its first output was moved away: a second job of the
+                        # same object has to restore everything again
+                        with fstrace.suspended():
+                            import shutil
+                            for nm in os.listdir(os.path.join(sbx, dest_rel)):
+                                p = os.path.join(sbx, dest_rel, nm)
+                                shutil.rmtree(p) if os.path.isdir(p) and not os.path.islink(p) else os.remove(p)
+                        rec["count"] = asm.assemble_torrents()
                     else:
                         asm = Assembler(marg, sarg, dest_arg)
                         rec["count"] = asm.assemble_torrents()
@@ -475,7 +485,10 @@ def run_rebuild(case):
                 order = sorted(range(len(f.get("cands", []))), key=lambda k: (f["cands"][k].get("search", 0) % nse, k))
                 rec["files"].append({"torrent": ti, "path": [hexs(c) for c in f["path"]], "length": f["size"],
                                      "cands": [f["cands"][k]["cls"] for k in order],
-                                     "given": 2 if case.get("meta_args") == "both" and ti == len(trees) - 1 else 1,
+                                     # how often the file may legitimately be counted: once per mention of its metafile,
+                                     # and once per job when one Assembler object (whose counter runs on) did several
+                                     "given": (2 if case.get("meta_args") == "both" and ti == len(trees) - 1 else 1)
+                                              * (rec["runs"] if case.get("reuse_obj") else 1),
                                      "dest_pre": f.get("dest_pre", "absent") if not case.get("hostile") else "absent",
                                      "pre_intact": (ti, fi) in pre and pre[(ti, fi)] == data, "after": state})
         for r in changed:
